@@ -54,7 +54,9 @@ def cases(tier, seed):
     for order in (0, 1):
         for n1 in (1, 2, 4):
             for env in ('free', 'ideal'):
-                yield dict(kind='dist', order=order, n1=n1, env=env, f=f)
+                for which in ('both', 'first', 'second'):
+                    for flip2 in (0, 1):
+                        yield dict(kind='dist', order=order, n1=n1, env=env, f=f, which=which, flip2=flip2)
     # in the system
     for ground, special in ((False, False), (True, False), (True, True)):
         P, f, lam = geom.lattice(seed, ground=ground, special=special)
@@ -168,12 +170,18 @@ def evaluate(c):
             A = np.array([0., 0., 0.])
         w1 = dict(p1=A, p2=B, n=c['n1'], r=1e-4 * lam)
         w2 = dict(p1=B, p2=C_, n=4, r=3e-4 * lam)
+        if c.get('flip2'):
+            w2 = dict(p1=C_, p2=B, n=4, r=3e-4 * lam)
         ws = [w1, w2] if c['order'] == 0 else [w2, w1]
         for kind in ('skin', 'insul', 'both'):
             objs = [mm.Wire(w['n'], *w['p1'], *w['p2'], w['r']) for w in ws]
             m = mm.Mininec(f, objs, media=geom.media_from(c['env']))
             lds = []
             for o in objs:
+                # which of the two wires carries the load (listing order 0 = w1 first)
+                is_w1 = (o is objs[0]) == (c['order'] == 0)
+                if (c.get('which') == 'first' and not is_w1) or (c.get('which') == 'second' and is_w1):
+                    continue
                 if kind in ('skin', 'both'):
                     ld = mm.Skin_Effect_Load(o, conductivity=3e6 if o is objs[0] else 5.8e7)
                     m.register_load(ld, None, o.tag)
@@ -210,10 +218,10 @@ def evaluate(c):
                 # a grounded pulse: the statement counts the conductor length the pulse represents (real half)
                 junction = p.geo[0] is not p.geo[1]
                 chk('DIST-%s-%s' % (kind, 'junction' if junction else ('ground' if p.ground.any() else 'interior')),
-                    abs(got - exp) / abs(exp), 1e-6,
+                    abs(got - exp) / (abs(exp) if exp else 1.0), 1e-6,
                     'distributed load (%s) on pulse %d (%s, wires n=%d r=%.3g / n=%d r=%.3g, order %d): loads add %s, closed form x conductor length gives %s'
-                    % (kind, p.idx + 1, c['env'], ws[0]['n'], ws[0]['r'], ws[1]['n'], ws[1]['r'], c['order'], got, exp))
-            canon.append('dist|%s|%d|%d|%s' % (kind, c['order'], c['n1'], c['env']))
+                    % (kind + '/' + str(c.get('which')), p.idx + 1, c['env'], ws[0]['n'], ws[0]['r'], ws[1]['n'], ws[1]['r'], c['order'], got, exp))
+            canon.append('dist|%s|%d|%d|%s|%s|%d' % (kind, c['order'], c['n1'], c['env'], c.get('which'), c.get('flip2', 0)))
             nontriv.append(True)
     elif k == 'system':
         pts = [np.array(p) for p in c['pts']]
